@@ -73,6 +73,19 @@ PLANS = {
         gates=dict(rel=dict(dense_group_after_sparse_group=1, threshold_group=1, partial_last_group=1, select0_support_true=1,
                             select0_support_false=1)),
     ),
+    "C08": dict(
+        lanes=dict(quick=[("rel", N), ("dbg", N), ("miri", N)],
+                   thorough=[("rel", N), ("dbg", N), ("asan", N), ("miri", N)]),
+        rule="cases = seeded operation histories (20..2000 operations drawn from push, append_bits, extend_with_zeros, set, set_bits, "
+             "extend(bools), extend(positions); four profiles: small/every-op-observed, boundary-crossing, big jumps, overwrite-heavy) applied "
+             "to a BitVectorMut and a Vec<bool> in lock-step. Observations: len/count_ones/count_zeros/is_empty/get after (almost) every "
+             "operation; periodically and at the end get_bits for every 1<=len<=64 at starts around word/line boundaries and at the last legal "
+             "start, get_word for every word incl. zero padding, iter/ones/zeros/ones_with_pos/zeros_with_pos; at the quiescent point "
+             "conversion to BitVector and back, clone, collect from bools / positions (usize,u32,i64), == between vectors that reached the "
+             "same bits through different histories and != for a flipped bit / an appended zero. Class = (profile, operation-count bucket).",
+        assumptions=COMMON_ASSUMPTIONS + ["operations are called inside their documented preconditions (out-of-precondition calls belong to C04)"],
+        gates=dict(rel=dict(histories_crossing_line_boundary=10, max_len=2000)),
+    ),
 }
 
 
